@@ -479,6 +479,17 @@ def run(ctx):
     check_hints(ctx, prog)
     r5.run_r5(ctx, prog)
     ctx.min_instances("R5.queue", 30)
+    from rules import r8attrsize, r8aggrgroup
+    ctx.rule("R8.attrsize", "every attribute element count the header reader accepts has an external size below 2^63 "
+             "(exhaustive over version x type, bounded over a dictionary of extreme words)")
+    hprog = ctx.program(names=["ncmpio_attr.c", "ncmpio_header_get.c"])
+    na = r8attrsize.check(ctx, hprog, "R8.attrsize")
+    ctx.require(na >= 400, "R8.attrsize: only %d cells evaluated" % na)
+    ctx.rule("R8.aggrgroup", "intra-node aggregation groups: membership, aggregator and the rank-list copy stay inside the node's "
+             "rank list (bounded: 1..9 processes x 1..5 aggregators x every rank)")
+    iprog = ctx.program(names=["ncmpio_intra_node.c"])
+    ng = r8aggrgroup.check(ctx, ctx.need_fn(iprog, "ncmpio_intra_node_aggr_init"), "R8.aggrgroup")
+    ctx.require(ng >= 200, "R8.aggrgroup: only %d cells evaluated" % ng)
     ctx.rule("R9.ptrarray", "object pointer arrays are zero-initialised, or ndefined counts only the cells stored")
     check_ptrarray(ctx, ctx.program(groups=["lib"]))
     ctx.rule("R9.gotoinit", "no scalar local is read across a goto taken before its initialisation")
